@@ -4,6 +4,8 @@ use crate::harness::*;
 use jsonb::jsonpath::{JsonPath, Mode, Selector};
 use refmodel::jpath::{print_path, JPath};
 use refmodel::layout::{enc, hex, strict_dec};
+#[allow(unused_imports)]
+use refmodel::ops;
 use refmodel::RVal;
 use serde_json::json;
 
@@ -153,6 +155,51 @@ pub fn spaces(tier: Tier) -> Vec<Space<'static>> {
     {
         let sz = std::sync::Arc::new(crate::checks::scale::sizes_heavy(tier));
         sp.push(Space::new("size sweep: every N up to the limit x 4 families x 13 paths x 4 modes", sz.len() as u64, move |i, acc| crate::checks::scale::sized_paths(sz[i as usize], acc, true)));
+    }
+    // the convenience functions also accept JSON text: existence / selection on a text (plain and
+    // fully \\u-escaped spelling, 1 KiB and more) must relate to all-mode on its encoding the same way
+    {
+        let lim: u64 = if tier.thorough() { 400 } else { 130 };
+        sp.push(Space::new("size sweep: text-form convenience functions vs all-mode on the encoding", (lim + 1) * 2, move |i, acc| {
+            let n = (i / 2) as usize;
+            let v = if i % 2 == 0 { crate::checks::scale::sized(1, n) } else { RVal::Obj((0..n).map(|k| (format!("clé{}", k), RVal::u(k as u64))).collect()) };
+            let bytes = enc(&v);
+            let plain = refmodel::text::print(&v);
+            let mut escd = String::new();
+            crate::checks::c11::escaped_text(&v, &mut escd);
+            let keys = crate::checks::scale::keys_of(&v);
+            for k in keys {
+                use refmodel::jpath::Step;
+                for mp in [JPath(vec![Step::Root, Step::Dot(k.clone())]), JPath(vec![Step::Root, Step::ObjField(k.clone())]), JPath(vec![Step::Root, Step::DotWild]), JPath(vec![Step::Root, Step::BracketWild])] {
+                    let ps = print_path(&mp);
+                    let ip = crate::pathconv::to_impl_path(&mp);
+                    let Ok(all) = select(&ip, Mode::All, &bytes) else { continue };
+                    let Ok(mixed) = select(&ip, Mode::Mixed, &bytes) else { continue };
+                    for (form, t) in [("plain-text", &plain), ("escaped-text", &escd)] {
+                        acc.eval();
+                        acc.nontrivial += 1;
+                        let r = guard(|| {
+                            let e = jsonb::path_exists(t.as_bytes(), ip.clone());
+                            let (mut d, mut o) = (vec![], vec![]);
+                            let g = jsonb::get_by_path(t.as_bytes(), ip.clone(), &mut d, &mut o);
+                            (e, g.map(|_| (d, o)))
+                        });
+                        match r {
+                            Err(p) => acc.vio(&format!("text-form:{}", panic_class(&p)), || json!({"path": ps, "N": n, "form": form})),
+                            Ok((e, g)) => {
+                                if e.as_ref().ok().copied() != Some(!all.offsets.is_empty()) {
+                                    acc.vio("path_exists(text):not-iff-all-mode-nonempty", || json!({"path": ps, "N": n, "form": form, "text_len": t.len(), "path_exists": format!("{:?}", e), "all_items": all.offsets.len()}));
+                                }
+                                match g {
+                                    Ok((d, o)) if d == mixed.data && o == mixed.offsets => {}
+                                    _ => acc.vio("get_by_path(text):differs-from-mixed-mode-on-the-encoding", || json!({"path": ps, "N": n, "form": form})),
+                                }
+                            }
+                        }
+                    }
+                }
+            }
+        }));
     }
     for ps in path_sets(tier) {
         // the relational check runs 12 evaluations per pair: use every path but thin the big sets' documents
